@@ -15,8 +15,10 @@ use std::time::{Duration, Instant};
 
 pub const SEGS: [&str; 10] = ["a", "-", "$A", "${A}", "$AB", "${AB}", "$U", "${U}", "$?", "$$"];
 /// SEGS plus the characters that decide where an unbraced name ends or whether a `$` starts a reference at all
-pub const EXT: [&str; 16] = ["a", "-", "$A", "${A}", "$AB", "${AB}", "$U", "${U}", "$?", "$$", "_", "1", ".", "é", "$", "%"];
-pub const ENVS: [(&str, &str, &str, &str); 12] = [
+/// (the last one, a parenthesised text, is only used by the dollar-end step)
+pub const EXT: [&str; 17] = ["a", "-", "$A", "${A}", "$AB", "${AB}", "$U", "${U}", "$?", "$$", "_", "1", ".", "é", "$", "%", "(v)"];
+const EXT_N: usize = 16;
+pub const ENVS: [(&str, &str, &str, &str); 13] = [
     // (label, A, AB, B)
     ("plain", "va", "vab", "vb"),
     ("blank", "x y", "vab", "vb"),
@@ -31,6 +33,8 @@ pub const ENVS: [(&str, &str, &str, &str); 12] = [
     ("brace-group", "{a,b}", "x{c,d}y", "vb"),
     ("numeric-range", "{1..3}", "p{2..1}", "vb"),
     ("command-substitution", "$(nosuchcmd-x)", "`nosuchcmd-y`", "vb"),
+    // a value that ends in `$`: text written after the reference (`(v)`, a name) must not join it
+    ("dollar-end", "$", "x$", "vb"),
 ];
 pub const STATUS: i32 = 7;
 
@@ -228,12 +232,12 @@ fn cases(nsegs: usize, envs: &'static [usize]) -> Box<dyn Iterator<Item = Case>>
 
 /// words over EXT that use at least one of the additional segments
 fn cases_ext(nsegs: usize, envs: &'static [usize]) -> Box<dyn Iterator<Item = Case>> {
-    let total = (EXT.len() as u64).pow(nsegs as u32);
+    let total = (EXT_N as u64).pow(nsegs as u32);
     Box::new((0..total).flat_map(move |mut x| {
         let mut segs = vec![0usize; nsegs];
         for p in (0..nsegs).rev() {
-            segs[p] = (x % EXT.len() as u64) as usize;
-            x /= EXT.len() as u64;
+            segs[p] = (x % EXT_N as u64) as usize;
+            x /= EXT_N as u64;
         }
         let mut v = Vec::new();
         // (`$1` is a positional parameter: outside of scripts its expansion is not part of this property)
@@ -262,6 +266,28 @@ fn cases_ext(nsegs: usize, envs: &'static [usize]) -> Box<dyn Iterator<Item = Ca
                         v.push(Case { env, exported, shadow: false, quote, segs: segs.clone() });
                     }
                 }
+            }
+        }
+        v.into_iter()
+    }))
+}
+
+/// words over {a $A ${A} $AB (v)} under the environment whose values end in `$`; double-quoted, and unquoted when
+/// the word has no parenthesis
+fn cases_dollar_end(nsegs: usize) -> Box<dyn Iterator<Item = Case>> {
+    const D: [usize; 5] = [0, 2, 3, 4, 16];
+    let total = (D.len() as u64).pow(nsegs as u32);
+    Box::new((0..total).flat_map(move |mut x| {
+        let mut segs = vec![0usize; nsegs];
+        for p in (0..nsegs).rev() {
+            segs[p] = D[(x % D.len() as u64) as usize];
+            x /= D.len() as u64;
+        }
+        let mut v = Vec::new();
+        for exported in [true, false] {
+            v.push(Case { env: 12, exported, shadow: false, quote: 1, segs: segs.clone() });
+            if !segs.contains(&16) {
+                v.push(Case { env: 12, exported, shadow: false, quote: 0, segs: segs.clone() });
             }
         }
         v.into_iter()
@@ -305,6 +331,10 @@ pub fn run(ctx: &Ctx) -> Value {
     let next = if ctx.thorough() { 4 } else { 3 };
     steps.push((format!("words of 2..{} segments over the extended segment set (name-boundary characters) x 3 envs", next), Box::new(move || {
         Box::new((2..=next).flat_map(|n| cases_ext(n, &EXT_ENVS)))
+    })));
+    let ndollar = if ctx.thorough() { 4 } else { 3 };
+    steps.push((format!("words of 1..{} segments over {{a $A ${{A}} $AB (v)}} under values that end in `$`", ndollar), Box::new(move || {
+        Box::new((1..=ndollar).flat_map(cases_dollar_end))
     })));
     // a name that was a local variable first and was exported afterwards: the exported value is the current one
     let nshadow = if ctx.thorough() { 3 } else { 2 };
